@@ -108,6 +108,35 @@ def run(ctx):
         base["lookups"] = [(t, h) for t in (T - 1, T, T + 1, T + 100000, 0, tempo[-1][0]) for h in range(0, nb + 2)]
         cases.append(base)
     _tempo.judge(ctx, cases, "C11", "maps ending in a zero tempo that governs nothing", lookups=_lookups)
+    # half-microsecond ties (round 12, seeded/C11l / C17l: a hinted fast path that computes the seconds per tick by another
+    # formula, one ulp apart): at 192 ticks per beat a tick lasts 312500000 / n microseconds, so an offset of `base * odd`
+    # ticks under tempo n lasts exactly N + 1/2 microseconds whenever 625000000 * base / n is an odd integer - the one place
+    # where the last bit of a float decides a microsecond.  Lookups on such ticks with every hint, events of every kind on them.
+    ties = [(104000, 13), (184000, 23), (208000, 26), (153600, 2400), (76800, 1200), (96000, 300), (64000, 200), (200000, 25),
+            (160000, 100), (128000, 400), (80000, 50)]
+    cases = []
+    for k in range(ctx.pick(12, 120)):
+        t, tempo, tie_ticks = 0, [], []
+        for j in range(r.choice([3, 5, 9])):
+            n_, base_ = ties[(k * 5 + j * 3 + r.randrange(3)) % len(ties)] if (j or k % 2) else (120000, 1)
+            assert n_ == 120000 or ((625000000 * base_) % n_ == 0 and ((625000000 * base_) // n_) % 2 == 1)
+            tempo.append([t, n_])
+            odds = [1, 3, 5, 7, 9, 11, 21, 31]
+            here = [t + base_ * o for o in odds[:r.choice([3, 5, 8])]] if n_ != 120000 else []
+            tie_ticks += [(x, j) for x in here]
+            t = (max(here) if here else t) + base_ * 2 * r.randrange(1, 5) + base_       # the next tempo event: past the last tie, itself on a tie
+        nb = len(tempo)
+        body = []
+        for x, j in tie_ticks[::2]:
+            body.append(("N", x, (x + j) % 5, 0))
+        evs = [("lyric", x) for x, j in tie_ticks[1::3]] + [("section", x) for x, j in tie_ticks[2::3]]
+        c = {"id": f"C11-tie{k}", "res": 192, "sync": [("B", a, b) for a, b in tempo] + [("TS", 0, 4)] + [("TS", x, 3) for x, j in tie_ticks[1::4]],
+             "events": sorted(evs, key=lambda e: e[1]),
+             "tracks": {"ExpertSingle": body + [("S", x, 1) for x, j in tie_ticks[::5]] + [("E", x, "solo") for x, j in tie_ticks[3::5]]}}
+        c["tracks"]["ExpertSingle"].sort(key=lambda it: it[1])
+        c["lookups"] = [(x, h) for x, j in tie_ticks for h in sorted({0, j, max(0, j - 1), j + 1, nb - 1, nb})]
+        cases.append(c)
+    _tempo.judge(ctx, cases, "C11", "tempo maps of half-microsecond ties", lookups=_lookups)
     if ctx.tier == "thorough":
         # bonus: the hinted forward scan is correct for EVERY map of <= 5 tempo events with unbounded ticks, every tick
         # and every hint (Apalache, spec/apalache/LookupScan.tla).  Recorded in the evidence; nothing depends on it.
